@@ -10,6 +10,12 @@ CONSTANTS
   PreStarted = TRUE
   FixedStopOrder = 2
   ResetInRun = FALSE
+  BMin = 4
+  BMax = 18
+  BMulP = 3
+  BMulQ = 2
+  Sleeps = {8}
+  PauseMax = FALSE
 SPECIFICATION Spec
 INVARIANT TypeOK
 INVARIANT BackoffLaw
